@@ -226,20 +226,20 @@ theorem commentOk_tail {c : Comment} (h : commentOk c = true) : c.tail = none :=
   simp only [commentOk, Bool.and_eq_true] at h
   simpa using h.1.1
 
-/-- **tokens → raw document**: `build` inverts `toksDoc` on well-formed documents -/
-theorem build_toksDoc (d : Doc) (hwf : wfDoc d = true) :
-    (build BState.init (toksDoc d)).bind BState.finish = some (rawDoc d) := by
+/-- **tokens → raw document**: `build` inverts `toksDocP` on well-formed documents -/
+theorem build_toksDocP (pend : Str) (hp : isBlank pend = true) (d : Doc) (hwf : wfDoc d = true) :
+    (build BState.init (toksDocP pend d)).bind BState.finish = some (rawDoc d) := by
   simp only [wfDoc, Bool.and_eq_true, List.all_eq_true] at hwf
   obtain ⟨⟨hroot, hpre⟩, hpost⟩ := hwf
-  unfold toksDoc
+  unfold toksDocP
   simp only [List.append_assoc]
-  rw [build_toksCs_pre d.pre (fun c hc => commentOk_tail (hpre c hc)) [] (by decide) _ rfl rfl]
-  have hb1 := toksCs_pend_blank d.pre [] (by decide)
+  rw [build_toksCs_pre d.pre (fun c hc => commentOk_tail (hpre c hc)) pend hp _ rfl rfl]
+  have hb1 := toksCs_pend_blank d.pre pend hp
   have hb2 := toksCs_pend_blank d.post [] (by decide)
   have hE := fun st rest => build_toksE [] true 0 d.root hroot st rest
   -- the pending white space before the root
   have hskip : ∀ (st : BState) (rest : List Tok), st.stack = [] →
-      build st (textTok (toksCs [] d.pre).2 ++ rest) = build st rest := by
+      build st (textTok (toksCs pend d.pre).2 ++ rest) = build st rest := by
     intro st rest hs
     unfold textTok
     split
@@ -251,5 +251,9 @@ theorem build_toksDoc (d : Doc) (hwf : wfDoc d = true) :
   rw [build_toksCs_post d.post (fun c hc => commentOk_tail (hpost c hc)) [] (by decide) _ rfl rfl]
   simp only [step, isBlank_append hb2 (by decide : isBlank ['\n'] = true), ↓reduceIte,
     build, Option.bind_some, BState.finish, List.append_nil, List.reverse_reverse, rawDoc]
+
+theorem build_toksDoc (d : Doc) (hwf : wfDoc d = true) :
+    (build BState.init (toksDoc d)).bind BState.finish = some (rawDoc d) :=
+  build_toksDocP [] (by decide) d hwf
 
 end Capella.Xml
